@@ -765,6 +765,45 @@ def decorate(ch, rng, errors=True, evcond=False):
     ch.reindex()
 
 
+def rename_states(ch, fn):
+    """Give every proper state / history the id fn(old id); targets, initial attributes/elements and In() conditions follow."""
+    m = dict((s.id, fn(s.id)) for s in ch.doc if s.kind != 'scxml')
+    assert len(set(m.values())) == len(m)
+
+    def ex(e):
+        if e is None or not isinstance(e, tuple): return e
+        if e[0] == 'in': return ('in', m.get(e[1], e[1]))
+        if e[0] == 'list': return e
+        return tuple(ex(x) if isinstance(x, tuple) else x for x in e)
+
+    def acts(a):
+        out = []
+        for x in a:
+            if x[0] == 'log': out.append(('log', x[1], ex(x[2])))
+            elif x[0] in ('assign', 'script'): out.append((x[0], x[1], ex(x[2])))
+            elif x[0] == 'if': out.append(('if', [(ex(c), acts(b)) for c, b in x[1]], acts(x[2]) if x[2] is not None else None))
+            elif x[0] == 'foreach': out.append(x[:4] + (acts(x[4]),))
+            else: out.append(x)
+        return out
+    for s in ch.doc:
+        if s.kind != 'scxml': s.id = m[s.id]
+        s.onentry = [acts(b) for b in s.onentry]; s.onexit = [acts(b) for b in s.onexit]
+        if s.initial_attr: s.initial_attr = [m[i] for i in s.initial_attr]
+        if s.initial_elem: s.initial_elem = ([m[i] for i in s.initial_elem[0]], acts(s.initial_elem[1]))
+        for t in s.trans:
+            t.targets = [m[i] for i in t.targets]; t.cond = ex(t.cond); t.content = acts(t.content)
+    ch.reindex()
+    return m
+
+
+def substring_ids(ch):
+    """state ids that are character prefixes / substrings of one another: s1 -> s1, s2 -> s11, s3 -> s111, ... (h likewise)"""
+    def fn(i):
+        k = int(i[1:]) if i[1:].isdigit() else None
+        return i if k is None else i[0] + '1' * k
+    return rename_states(ch, fn)
+
+
 def long_event_names(ch, hist, tail=70):
     """Rename the events e1/e2/e3/i1 (first token; descriptors and sub-tokens keep working) to names that share a prefix longer than 64
     characters and differ only behind it. Returns the renamed history."""
